@@ -36,6 +36,8 @@ def _run_ops(fn, ops, upto_last_armed, shim):
     from asyncfix.message import MessageDirection
     from asyncfix.errors import DuplicateSeqNoError
     D = {"in": MessageDirection.INBOUND, "out": MessageDirection.OUTBOUND}
+    if shim is not None and not ops:
+        shim.armed = True          # the operation in flight is the very first open of a new file (schema creation)
     j = Journaler(fn)
     objs = []
     for i, o in enumerate(ops):
@@ -273,6 +275,8 @@ def run(ctx):
                         a = 1
                     ops.append({"op": "setseq", "so": rng.randint(1, nobj), "a": a, "b": b})
             inputs.append({"id": "r%d" % i, "ops": ops, "dir": scratch, "fork": i % 100 == 0})
+        # the first open of a new journal file (schema creation) as the operation in flight, also with real os._exit children
+        inputs.append({"id": "open", "ops": [], "dir": scratch, "fork": True})
         ctx.log("running %d operation sequences x every crash point of the last operation (forked children, real files in %s)" % (len(inputs), scratch))
         parts = pmap(execute, inputs, chunk=8)
         recs = [r for p in parts for r in p]
